@@ -59,7 +59,7 @@ fn profile() -> ScenarioProfile {
         dir_names: Names::Plain,
         patterns: false,
         priorities: true,
-        symlinks: false,
+        symlinks: true,
         match_links_ok: true,
         rf: true,
         ops: vec![Op::Remove, Op::Remove, Op::Link, Op::SoftLink, Op::Move, Op::Dedupe],
@@ -91,6 +91,12 @@ fn case_strategy() -> BoxedStrategy<C04Case> {
             if d.move_target == 1 {
                 d.move_target = 0;
             }
+            if d.gopts.symbolic_links {
+                // a symlink kept as the replica of its own target under another isolate root is an open
+                // finding of C02/C11: excluded here by construction
+                d.gopts.isolate = false;
+                d.dopts.isolate = false;
+            }
             C04Case { d, edits, pause_sel, tz_group, tz_dedupe, prefer_grouped }
         })
         .boxed()
@@ -115,6 +121,19 @@ fn apply_edit(e: &Edit, idx: usize, files: &[PathBuf]) -> Option<String> {
     }
     let p = &files[pick(e.target, files.len())];
     let Ok(meta) = std::fs::symlink_metadata(p) else { return None };
+    if meta.file_type().is_symlink() {
+        // an ordinary write through a link that is a group member (reported with -S): same length
+        if e.kind != EditKind::RewriteSameLen {
+            return None;
+        }
+        let Ok(tm) = std::fs::metadata(p) else { return None };
+        if !tm.is_file() {
+            return None;
+        }
+        let n = tm.len() as usize;
+        std::fs::write(p, class_bytes(50_000 + idx as u32 * 131 + e.target as u32, n.max(1))).ok()?;
+        return Some(format!("RewriteSameLen through the symlink {}", p.display()));
+    }
     if !meta.is_file() {
         return None;
     }
@@ -321,7 +340,8 @@ fn judge(c: &C04Case, cd: &CaseDir, files: &[PathBuf], target: &PathBuf) -> Verd
     // edit targets: members of the groups the recording run reported, when asked for and available
     let grouped_files: Vec<PathBuf> = if c.prefer_grouped {
         let members: std::collections::BTreeSet<Vec<u8>> = parse_text(&rec.stdout).map(|r| r.groups.iter().flat_map(|g| g.files.iter().cloned()).collect()).unwrap_or_default();
-        files.iter().filter(|f| members.contains(&path_bytes(f))).cloned().collect()
+        // all reported members, symlinks (reported with -S) included
+        members.iter().map(|m| bytes_path(m)).collect()
     } else {
         vec![]
     };
